@@ -6,6 +6,8 @@ HOOKS = {
     "add_only": True,
 }
 ENGINES = [
+    {"name": "tlc-lexer", "path": "spec/EbnfLexRef.tla, spec/EbnfLexDet.tla, spec/EbnfScan.tla, spec/LexStream.tla, spec/ScannerProduct.tla",
+     "serves_properties": ["C05"], "kind_free_text": "reference token automaton derived in TLA+ from the documented token table; product with the real coded table; trace validation of recorded token streams; harness/lexer.go"},
     {"name": "tlc-scanner-product", "path": "spec/ScannerProduct.tla", "serves_properties": ["C03"],
      "kind_free_text": "TLC product of per-definition reference recognisers with the combined automaton + owner table exported by harness/scanner.go; generator spec/ScannerGen.tla"},
     {"name": "tlc-pattern-grammar", "path": "spec/PatternAccept.tla", "serves_properties": ["C09"],
@@ -24,6 +26,13 @@ CHECKS = {
         "technique": "TLC product exploration: one TLA+ reference recogniser per definition x the combined scanner automaton and its owner table from the real Spec.DFA()",
         "text": "For every subset (size <=3 of 14 quick, <=4 of 20 thorough) of a pool of literals, patterns and predefined patterns written as a real specification, TLC explores the full product of the exported combined automaton with the tuple of per-definition reference recognisers and checks in every reachable state: accepting iff some definition matches, owner = the unique matching definition or the unique literal, a conflict error iff a state with two patterns and no literal is reachable (both directions), literals denote their characters with escapes resolved.",
         "note": "Pool-bounded definition sets; string domain ASCII 1..127; trusted: TLC, printer, partition (as C02).",
+    },
+    "C05": {
+        "level": "model_checking",
+        "engine": "tlc-lexer",
+        "technique": "TLC product of the documented token table (TLA+ reference automaton) with the complete advanceDFA/evalDFA table over all Unicode code points + TLC trace validation of recorded token streams against a reference maximal-munch scanner",
+        "text": "Table level: advanceDFA is evaluated for 64 states x every Unicode code point (71 M evaluations), code points are grouped into behaviour classes, and TLC explores the full product of that table (with evalDFA's token kind per state) with the reference automaton built from the token table of docs/5-definitions.md (keywords over identifiers, comments ending at the first */): same acceptance, same winning kind and same liveness in every reachable pair. Stream level: ~10^5 texts (all sequences of <=2 lexical elements from a pool of tokens, near-misses, comments x separators, <=3 in thorough, plus random longer ones) are scanned by the real lexer and each recorded stream (kind, lexeme, offset, line, column, final error position) is validated token by token as a behaviour of spec/EbnfScan.tla.",
+        "note": "Trusted: transcription of the token table (EbnfLexRef.tla) incl. two readings where the docs conflict (REGEX not starting with '*', comment bodies ASCII); LF line ends; known finding TOKEN1 (one-letter TOKEN) matched by shape.",
     },
     "C09": {
         "level": "model_checking",
